@@ -505,8 +505,37 @@ func metadataByTypeNotByName(w *World, r *Report, prop string) {
 			if !ok {
 				continue
 			}
-			if m, _ := methodCall(x); m == "Type_" && edgeDominates(b, 1-nn, blk) {
+			if !edgeDominates(b, 1-nn, blk) {
+				continue
+			}
+			if m, _ := methodCall(x); m == "Type_" {
 				return true
+			}
+			// the tested value is a parameter that every call site binds to the declaration's type child
+			if pa, isP := stripIdentity(x).(*ssa.Parameter); isP {
+				fn := pa.Parent()
+				idx := -1
+				for i, q := range fn.Params {
+					if q == pa {
+						idx = i
+					}
+				}
+				sites, all := 0, true
+				for _, g := range theWorld.srcFuncs {
+					forEachInstr(g, func(_ *ssa.BasicBlock, ins ssa.Instruction) {
+						c, ok := ins.(ssa.CallInstruction)
+						if !ok || c.Common().StaticCallee() != fn || idx >= len(c.Common().Args) {
+							return
+						}
+						sites++
+						if m, _ := methodCall(c.Common().Args[idx]); m != "Type_" {
+							all = false
+						}
+					})
+				}
+				if sites > 0 && all {
+					return true
+				}
 			}
 		}
 		return false
@@ -577,6 +606,12 @@ func metadataByTypeNotByName(w *World, r *Report, prop string) {
 				return
 			}
 			for _, o := range originsOf(lk.Index, b, 0, map[ssa.Value]bool{}) {
+				if !o.ok && noTypeEdge(b) {
+					o.ok = true // the guard sits in the helper that holds the look-up
+				}
+				if !o.ok && usesConfined(lk, noTypeEdge, o.fn) {
+					o.ok = true // the table is asked first, the answer is used only where no type is written
+				}
 				if want := map[string]string{"C04": "LengthFieldAttribute", "C06": "CheckSumFieldAttribute"}[prop]; want != "" {
 					builds := false
 					forEachInstr(o.fn, func(_ *ssa.BasicBlock, i2 ssa.Instruction) {
@@ -734,3 +769,101 @@ func resolverDescendsIntoInline(w *World, r *Report, prop string) {
 	}
 }
 
+
+// usesConfined: every use of what a look-up yields - followed through its components, copies, and the results of the helper that
+// performs it, to the helper's call sites - other than passing it on, comparing it or branching on it lies in a block for which
+// guarded holds. At least one such use must exist.
+func usesConfined(lk ssa.Value, guarded func(*ssa.BasicBlock) bool, onlyIn *ssa.Function) bool {
+	seen := map[ssa.Value]bool{}
+	work := []ssa.Value{lk}
+	real, ok := 0, true
+	for len(work) > 0 && ok {
+		v := work[len(work)-1]
+		work = work[:len(work)-1]
+		if seen[v] || v.Referrers() == nil {
+			continue
+		}
+		seen[v] = true
+		for _, ref := range *v.Referrers() {
+			switch x := ref.(type) {
+			case *ssa.DebugRef, *ssa.If:
+			case *ssa.Extract:
+				work = append(work, x)
+			case *ssa.Phi:
+				work = append(work, x)
+			case *ssa.Store:
+				// a record spilled to a local: its later loads stand for it
+				if al, isAl := x.Addr.(*ssa.Alloc); isAl && x.Val == v && !al.Heap {
+					work = append(work, al)
+				} else if x.Addr == v {
+					// the spill itself
+				} else {
+					real++
+					if !guarded(x.Block()) {
+						ok = false
+					}
+				}
+			case *ssa.UnOp:
+				if x.Op == token.MUL {
+					work = append(work, x)
+				} else {
+					real++
+					if !guarded(x.Block()) {
+						ok = false
+					}
+				}
+			case *ssa.FieldAddr:
+				work = append(work, x)
+			case *ssa.Field:
+				work = append(work, x)
+			case *ssa.MakeInterface:
+				work = append(work, x)
+			case *ssa.ChangeInterface:
+				work = append(work, x)
+			case *ssa.ChangeType:
+				work = append(work, x)
+			case *ssa.BinOp:
+				if x.Op == token.EQL || x.Op == token.NEQ {
+					continue
+				}
+				real++
+				if !guarded(x.Block()) {
+					ok = false
+				}
+			case *ssa.Return:
+				fn := x.Parent()
+				for i, res := range x.Results {
+					if res != v {
+						continue
+					}
+					for _, g := range theWorld.srcFuncs {
+						if onlyIn != nil && g != onlyIn && fn.Parent() == nil && x.Parent() == lk.(ssa.Instruction).Parent() {
+							continue // the call sites that hand in the name under judgement
+						}
+						forEachInstr(g, func(_ *ssa.BasicBlock, ins ssa.Instruction) {
+							c, isC := ins.(*ssa.Call)
+							if !isC || c.Call.StaticCallee() != fn {
+								return
+							}
+							if len(x.Results) == 1 {
+								work = append(work, c)
+							} else if c.Referrers() != nil {
+								for _, e := range *c.Referrers() {
+									if ex, isE := e.(*ssa.Extract); isE && ex.Index == i {
+										work = append(work, ex)
+									}
+								}
+							}
+						})
+					}
+				}
+			default:
+				real++
+				if !guarded(ref.Block()) {
+					ok = false
+				}
+			}
+		}
+	}
+	return ok && real > 0
+}
